@@ -309,7 +309,7 @@ class SynthWorld:
             if c["kind"] in ("data", "plain") and c["name"] in reg:
                 for i, (fn, ft) in enumerate(c["fields"]):
                     base = ft[1] if ft[0] == "ann" else ft
-                    if fn.startswith("f") and base[0] in ("int", "float", "str", "bool") and not (ft[0] == "ann" and ft[2][0] == "Dependent"):
+                    if fn.startswith("f") and base[0] in ("int", "float", "str", "bool") and not (ft[0] == "ann" and ft[2][0].startswith("Dependent")):
                         cands.append((c, i))
         if not cands:
             return res
